@@ -286,8 +286,19 @@ func runC04(c *Check) {
 		for _, b := range fn.Blocks {
 			for _, in := range b.Instrs {
 				if st, ok := in.(*ssa.Store); ok {
-					if ia, ok := st.Addr.(*ssa.IndexAddr); ok && mentionsFieldNamed(ia.X, "DuplicatedIndexes") && mentionsFieldNamed(st.Val, "DuplicatedIndexes") && derivesFromParam(st.Val, fn, 0) {
-						okDup = true
+					if ia, ok := st.Addr.(*ssa.IndexAddr); ok && mentionsFieldNamed(st.Val, "DuplicatedIndexes") && derivesFromParam(st.Val, fn, 0) {
+						// the destination is the result's list: the field itself, or a local slice that is stored into the field
+						dest := mentionsFieldNamed(ia.X, "DuplicatedIndexes")
+						if f := c.P.Field("client", "MerkleProof", "DuplicatedIndexes"); f != nil && !dest {
+							for _, fs := range storesToField(fn, f) {
+								if sharesRoot(fs.Val, ia.X) {
+									dest = true
+								}
+							}
+						}
+						if dest {
+							okDup = true
+						}
 					}
 				}
 			}
